@@ -263,6 +263,9 @@ func (eq *externalBaseQueue) Purge() {
 			j.Close()
 		}
 	}
+
+	// the queue may have become empty without any job completing: release the callers waiting for it to drain
+	eq.w.releaseWaiters(uint32(eq.w.NumProcessing()))
 }
 
 func (eq *externalBaseQueue) Close() error {
